@@ -6,7 +6,7 @@ from fv.gen import St, Blk
 from fv.model import get_model
 from fv import cosim_reader as CR
 
-RULE = ("generated programs x subsets S of whole simple executable statements (unlabelled, so that P minus S stays valid), hidden "
+RULE = ("generated programs x subsets S of whole simple executable statements (unlabelled, or labelled when no statement refers to the label, so that P minus S stays valid; a label stands behind the sentinel, in fixed form in columns 3-5), hidden "
         "behind the conditional sentinel: free form '!$ ' (continuation lines '!$ &…' / '!$&'), fixed form '!$', 'c$', '*$' in "
         "columns 1-2 (continuation mark in column 6); genuine '!$omp' directives interleaved; oracle: tree(sentinel(P,S), enabled) "
         "== tree(P); tree(sentinel(P,S), disabled, comments ignored) == tree(P minus S); '!$omp' lines stay comments in both; the "
@@ -22,7 +22,7 @@ def candidates(p):
         for x in b.body:
             if isinstance(x, Blk):
                 rec(x, inwhere or x.cons in ("where", "forall", "type", "interface", "enum", "select", "selecttype", "nonblockdo"))
-            elif x.role == "simple" and x.cons is None and x.label is None and not inwhere and b.cons not in ("nonblockdo",):
+            elif x.role == "simple" and x.cons is None and (x.label is None or len(x.label) <= 3) and not inwhere and b.cons not in ("nonblockdo",):
                 k = x.toks[0].upper()
                 if not gen.is_kw(k) or k in ("CALL", "PRINT", "WRITE", "CONTINUE", "ALLOCATE", "DEALLOCATE", "NULLIFY", "IF"):
                     out.append(x)
@@ -88,7 +88,8 @@ def fixed_text(p, S, rng):
         chunks.append(rest)
         if st in S:
             sent = rng.choice(["!$", "c$", "*$", "C$"])
-            lines.append(sent + "    " + chunks[0])
+            # a label of the conditional statement stands in columns 3-5
+            lines.append(sent + (st.label.rjust(3) if st.label else "   ") + " " + chunks[0])
             for c in chunks[1:]:
                 lines.append(sent + "   " + rng.choice("&1+") + c)
         else:
@@ -158,6 +159,10 @@ def run_case(case):
     if not cand:
         return res
     S = set(rng.sample(cand, rng.randint(1, min(6, len(cand)))))
+    labelled = [x for x in cand if x.label]
+    if labelled and rng.random() < 0.7:
+        S.add(rng.choice(labelled))
+    res["counts"]["labelled-sentinel-statements"] = sum(1 for x in S if x.label)
     free = form == "free"
     strict = bool(case.get("strict")) and not free
     src = free_text(p, S, rng) if free else fixed_text(p, S, rng)
